@@ -29,13 +29,20 @@ CONSTANT Dev,      \* set of deviation names
 
 DevNames == {"css_no_eof", "hdrparam_no_eof", "string_no_eof",
              "blockcomment_no_eof", "soydoc_no_eof", "literal_no_eof",
-             "soydocparam_eof_underflow", "begintag_self"}
+             "soydocparam_eof_underflow", "begintag_self", "neg_unicode_digit"}
 
 Classes == {"lb", "rb", "sl", "st", "bs", "sp", "nl", "dol", "dot", "q",
             "lbk", "rbk", "min", "dig", "dq", "sq", "eq", "pipe", "com",
-            "col", "lp", "rp", "at", "cmp", "ar", "let", "ulet", "oth"}
+            "col", "lp", "rp", "at", "cmp", "ar", "let", "ulet", "udig", "usp", "oth"}
+\* The scanner tests characters in two ways: ASCII ranges (isSpace, isDigit,
+\* isLetterOrUnderscore, r >= '0' && r <= '9') and Unicode categories
+\* (isAlphaNumeric = unicode.IsLetter/IsDigit, allSpaceWithNewline =
+\* unicode.IsSpace).  The NON-ASCII members of the Unicode categories are
+\* classes of their own: ulet (letter), udig (decimal digit, Nd), usp (space,
+\* Zs): they are several bytes wide and fall on different sides of the two
+\* kinds of test.
 SpaceEOL == {"sp", "nl"}
-Alnum    == {"let", "dig", "ulet"}
+Alnum    == {"let", "dig", "ulet", "udig"}
 
 VARIABLES
   mode,    \* "file" (lex: starts in lexText) | "expr" (lexExpr: lexInsideTag)
@@ -185,6 +192,11 @@ TrTag(c) ==
            [] OTHER -> {Emit(Back(Ret("InsideTag"), <<c>>), FALSE)}
     [] pc = "IT_neg" ->
          IF c = "dig" THEN {Back(Ret("Number"), <<"min", "dig">>)}
+         ELSE IF c = "udig" /\ "neg_unicode_digit" \in Dev
+              \* unicode.IsDigit(peek()) then backup(): the width of the peeked
+              \* multi-byte digit is subtracted instead of the width of "-":
+              \* pos < start, the next slice of the input panics
+              THEN {[O("END") EXCEPT !.fin = "crash"]}
          ELSE {Emit(Back(Ret("InsideTag"), <<c>>), FALSE)}
     [] pc = "IT_cmp" ->
          IF c = "eq" THEN {Emit(Ret("InsideTag"), FALSE)}
